@@ -2,7 +2,7 @@
 from ..rules import folds
 from .common import declare
 
-RULES = ['BATCH-PURE', 'INITIAL-NEUTRAL', 'FOLD-DERIVE', 'AGG-TABLE', 'REDUCER-NAME', 'STATE-PLUMB', 'FOLD-PURE', 'OPERATOR-TABLE']
+RULES = ['BATCH-PURE', 'INITIAL-NEUTRAL', 'FOLD-DERIVE', 'AGG-TABLE', 'REDUCER-NAME', 'STATE-PLUMB', 'FOLD-PURE', 'OPERATOR-TABLE', 'MIRROR']
 FLOORS = {'FOLD-DERIVE': 14, 'AGG-TABLE': 19, 'REDUCER-NAME': 25, 'STATE-PLUMB': 10, 'FOLD-PURE': 50, 'OPERATOR-TABLE': 30}
 
 META = {
@@ -30,6 +30,8 @@ def run(ctx, R):
     R.run(folds.check_batch_pure, ctx, R)
     R.run(folds.check_initial_neutral, ctx, R)
     R.run(folds.check_operator_table, ctx, R)
+    # sibling cross-check: an accrual step that is not the inverse of its decay step contradicts it - one of them is wrong
+    R.run(folds.check_mirror, ctx, R)
 
 
 META['level'] += (" Elementwise expressions: each of the operator methods of OperatorMixin maps to the operator function and operand "
